@@ -23,7 +23,7 @@ inductive Cfg where
   | fb (kind : FbKind) (fci : FciB) (padding : UInt8) (sender media : UInt32)
   | pb (inner : Cfg)
   | compound (ms : List Cfg)
-  | custom (b : CustomBuilder)
+  | custom (b : CustomBuilder) (some0 : Bool)
   | chunk (b : SdesChunkBuilder)
   | item (b : SdesItemBuilder)
   | fci (f : FciB)
@@ -73,12 +73,14 @@ def evalFci : Sexp → Option FciB
   | .list (.atom "nack" :: calls) => do
     let b ← calls.foldlM (fun (b : NackBuilder) c =>
       match c with
+      | .list [.atom "probe"] => pure b
       | .list [.atom "add", n] => do pure (b.addRtpSequence (u16 (← n.toNat?)))
       | _ => none) {}
     pure (.nack b)
   | .list (.atom "fir" :: calls) => do
     let b ← calls.foldlM (fun (b : FirBuilder) c =>
       match c with
+      | .list [.atom "probe"] => pure b
       | .list [.atom "add", s, q] => do pure (b.addSsrc (u32 (← s.toNat?)) (u8 (← q.toNat?)))
       | _ => none) {}
     pure (.fir b)
@@ -86,6 +88,7 @@ def evalFci : Sexp → Option FciB
     -- same result as folding `addLostMacroblock` (append at the end), built without the quadratic appends
     let rev ← calls.foldlM (fun (acc : List MacroBlockEntry) c =>
       match c with
+      | .list [.atom "probe"] => pure acc
       | .list [.atom "add", f, n, p] => do
         pure (⟨u16 (← f.toNat?), u16 (← n.toNat?), u8 (← p.toNat?)⟩ :: acc)
       | _ => none) []
@@ -93,8 +96,10 @@ def evalFci : Sexp → Option FciB
   | .list (.atom "rpsi" :: calls) => do
     let b ← calls.foldlM (fun (b : RpsiBuilder) c =>
       match c with
+      | .list [.atom "probe"] => pure b
       | .list [.atom "payload_type", n] => do pure (b.setPayloadType (u8 (← n.toNat?)))
       | .list [.atom "native_data", d, k] => do pure (b.nativeData (← d.toBytes?) (u8 (← k.toNat?)))
+      | .list [.atom "native_data_vec", d, k] => do pure (b.nativeData (← d.toBytes?) (u8 (← k.toNat?)))
       | .list [.atom "native_data_owned", d, k] => do pure (b.nativeDataOwned (← d.toBytes?) (u8 (← k.toNat?)))
       | _ => none) {}
     pure (.rpsi b)
@@ -106,6 +111,7 @@ def evalFb (k : FbKind) (mode : String) (fci : Sexp) (calls : List Sexp) : Optio
     let f ← evalFci fci
     let b ← calls.foldlM (fun (b : FbBuilder) c =>
       match c with
+      | .list [.atom "probe"] => pure b
       | .list [.atom "padding", n] => do pure (b.setPadding (u8 (← n.toNat?)))
       | .list [.atom "sender_ssrc", n] => do pure (b.setSenderSsrc (u32 (← n.toNat?)))
       | .list [.atom "media_ssrc", n] => do pure (b.setMediaSsrc (u32 (← n.toNat?)))
@@ -119,6 +125,7 @@ partial def evalBuilder : Sexp → Option Cfg
     let n ← name.toBytes?
     let b ← calls.foldlM (fun (b : AppBuilder) c =>
       match c with
+      | .list [.atom "probe"] => pure b
       | .list [.atom "padding", n] => do pure (b.setPadding (u8 (← n.toNat?)))
       | .list [.atom "subtype", n] => do pure (b.setSubtype (u8 (← n.toNat?)))
       | .list [.atom "data", d] => do pure (b.setData (← d.toBytes?))
@@ -127,6 +134,7 @@ partial def evalBuilder : Sexp → Option Cfg
   | .list (.atom "bye" :: calls) => do
     let b ← calls.foldlM (fun (b : ByeBuilder) c =>
       match c with
+      | .list [.atom "probe"] => pure b
       | .list [.atom "padding", n] => do pure (b.setPadding (u8 (← n.toNat?)))
       | .list [.atom "add_source", n] => do pure (b.addSource (u32 (← n.toNat?)))
       | .list [.atom "reason", r] => do pure (b.setReason (← r.toBytes?))
@@ -137,6 +145,7 @@ partial def evalBuilder : Sexp → Option Cfg
     let s ← ssrc.toNat?
     let b ← calls.foldlM (fun (b : RrBuilder) c =>
       match c with
+      | .list [.atom "probe"] => pure b
       | .list [.atom "padding", n] => do pure (b.setPadding (u8 (← n.toNat?)))
       | .list [.atom "add_report_block", rb] => do pure (b.addReportBlock (← evalRb rb))
       | _ => none) (RrBuilder.new (u32 s))
@@ -145,6 +154,7 @@ partial def evalBuilder : Sexp → Option Cfg
     let s ← ssrc.toNat?
     let b ← calls.foldlM (fun (b : SrBuilder) c =>
       match c with
+      | .list [.atom "probe"] => pure b
       | .list [.atom "padding", n] => do pure (b.setPadding (u8 (← n.toNat?)))
       | .list [.atom "ntp", n] => do pure (b.setNtp (u64 (← n.toNat?)))
       | .list [.atom "rtp", n] => do pure (b.setRtp (u32 (← n.toNat?)))
@@ -156,6 +166,7 @@ partial def evalBuilder : Sexp → Option Cfg
   | .list (.atom "sdes" :: calls) => do
     let b ← calls.foldlM (fun (b : SdesBuilder) c =>
       match c with
+      | .list [.atom "probe"] => pure b
       | .list [.atom "padding", n] => do pure (b.setPadding (u8 (← n.toNat?)))
       | .list [.atom "add_chunk", ch] => do pure (b.addChunk (← evalChunk ch))
       | _ => none) SdesBuilder.new
@@ -165,6 +176,7 @@ partial def evalBuilder : Sexp → Option Cfg
     let d ← data.toBytes?
     let b ← calls.foldlM (fun (b : UnknownBuilder) c =>
       match c with
+      | .list [.atom "probe"] => pure b
       | .list [.atom "padding", n] => do pure (b.setPadding (u8 (← n.toNat?)))
       | .list [.atom "count", n] => do pure (b.setCount (u8 (← n.toNat?)))
       | _ => none) (UnknownBuilder.new (u8 t) d)
@@ -177,17 +189,21 @@ partial def evalBuilder : Sexp → Option Cfg
     | .app _ | .bye _ | .rr _ | .sr _ | .sdes _ | .unknown _ | .fb .. => pure (.pb i)
     | _ => none
   | .list (.atom "compound" :: ms) => do
+    -- `(probe)` between members is a no-op on the model
+    let ms := ms.filter (fun m => match m with | .list [.atom "probe"] => false | _ => true)
     let l ← ms.mapM evalBuilder
     if l.all (fun c => match c with | .chunk _ | .item _ | .fci _ => false | _ => true) then pure (.compound l) else none
   | .list (.atom "custom" :: pt :: min :: body :: calls) => do
     let p ← pt.toNat?
     let m ← min.toNat?
     let bd ← body.toBytes?
-    let b ← calls.foldlM (fun (b : CustomBuilder) c =>
+    let (b, some0) ← calls.foldlM (fun ((b, some0) : CustomBuilder × Bool) c =>
       match c with
-      | .list [.atom "padding", n] => do pure (b.setPadding (u8 (← n.toNat?)))
-      | _ => none) { pt := u8 p, min := m, body := bd }
-    pure (.custom b)
+      | .list [.atom "probe"] => pure (b, some0)
+      | .list [.atom "padding", n] => do pure (b.setPadding (u8 (← n.toNat?)), some0)
+      | .list [.atom "pad_style", .atom "some0"] => pure (b, true)
+      | _ => none) (({ pt := u8 p, min := m, body := bd } : CustomBuilder), false)
+    pure (.custom b some0)
   | s@(.list (.atom "chunk" :: _)) => do pure (.chunk (← evalChunk s))
   | s@(.list (.atom "item" :: _)) => do pure (.item (← evalItem s))
   | s => do pure (.fci (← evalFci s))
@@ -218,7 +234,9 @@ partial def Cfg.toWriter : Cfg → Writer
     | .fb .payload f p s m => (PacketBuilder.pfb (fbBuilder .payload f p s m)).toWriter
     | other => other.toWriter
   | .compound ms => CompoundBuilder.toWriter (ms.map Cfg.toWriter)
-  | .custom b => b.toWriter
+  | .custom b some0 =>
+    -- `(pad_style some0)`: the third-party writer answers `Some(padding)` even for padding 0
+    if some0 then { b.toWriter with getPadding := some b.padding } else b.toWriter
   | .chunk b => ⟨b.calcSize, b.writeUnchecked, none⟩
   | .item b => ⟨b.calcSize, b.writeUnchecked, none⟩
   | .fci f => f.toFci.w
@@ -235,7 +253,7 @@ partial def Cfg.rtKind : Cfg → Option PKind
   | .fb .payload .. => some .pfb
   | .pb inner => inner.rtKind
   | .compound _ => some .compound
-  | .custom b => some (.custom b.pt b.min)
+  | .custom b _ => some (.custom b.pt b.min)
   | .chunk _ | .item _ | .fci _ => none
 
 def fillBuf (len : Nat) (fill : Sexp) : Option Bytes :=
@@ -266,7 +284,7 @@ def customGrid (pt : UInt8) (min : Nat) : Bool :=
   [0, 192, 199, 200, 204, 207, 208, 242, 255].contains pt.toNat && [4, 8, 12, 20].contains min
 
 partial def Cfg.customsOk : Cfg → Bool
-  | .custom b => customGrid b.pt b.min
+  | .custom b _ => customGrid b.pt b.min
   | .compound ms => ms.all Cfg.customsOk
   | _ => true
 
@@ -281,7 +299,7 @@ partial def Cfg.image : Cfg → Bytes
   | .fb k f p s m => Spec.fbImage k f p s m
   | .pb inner => inner.image
   | .compound ms => (ms.map Cfg.image).flatten
-  | .custom b => Spec.customImage b
+  | .custom b _ => Spec.customImage b
   | .chunk b => Spec.chunkImage b
   | .item b => Spec.itemImage b
   | .fci f => Spec.fciImage f
@@ -292,7 +310,7 @@ partial def Cfg.effPadding : Cfg → UInt8
   | .sdes b => b.padding | .unknown b => b.padding | .fb _ _ p _ _ => p
   | .pb inner => inner.effPadding
   | .compound ms => match ms.getLast? with | some m => m.effPadding | none => 0
-  | .custom b => b.padding
+  | .custom b _ => b.padding
   | _ => 0
 
 /-- the violated rules (Spec layer) -/
@@ -309,7 +327,7 @@ partial def Cfg.violations : Cfg → List WriteError
     let n := ms.length
     ((ms.zipIdx).map (fun (m, i) =>
       m.violations ++ (if i + 1 != n && m.effPadding != 0 then [WriteError.nonLastCompoundPacketPadding] else []))).flatten
-  | .custom b => Spec.customRules b
+  | .custom b _ => Spec.customRules b
   | .chunk b => Spec.chunkRules b
   | .item b => Spec.itemRules b
   | .fci f => Spec.fciRules f
